@@ -42,7 +42,7 @@ PROPOSED_FINDINGS = [
      "what": "a ternary `x if c else y` is accepted and emitted as the statement text `y=if (c) begin 1 end else begin 2 end;` (not Verilog); "
              "ReplaceIf.visit_IfExp fires before ReplaceIfExp can produce `?:`"},
     {"id": "C02-guarded-case", "property": "C02", "status": "known", "anchor": "py4hw/transpilation/python2verilog_transpilation.py:389",
-     "class_expr": "'case-guard' in r.get('reasons', []) and r.get('kind') in ('mismatch','x-after-write')",
+     "class_expr": "'case-guard' in r.get('reasons', []) and r.get('kind') in ('mismatch','x-after-write','x-state','x-consequence')",
      "witness": {"src": "match self.st:\n case 0 if self.a.get()==1: self.st=1\n case _: self.st=2", "history": [{"a": 0}], "signal": "st", "sim": 2, "verilog": 0},
      "what": "`case V if guard:` becomes `V: if (guard) ...` inside the Verilog case arm: when the guard fails Python falls through to the "
              "following cases / `case _`, the Verilog does nothing"},
@@ -51,33 +51,33 @@ PROPOSED_FINDINGS = [
      "witness": {"src": "match self.st:\n case 0: self.st=1\n case 1: self.st=2"},
      "what": "a `match` without `case _` is emitted as `default:endcase` (IEEE 1364-2005 A.6.7 requires a statement or `;` after `default:`)"},
     {"id": "C02-bool-value", "property": "C02", "status": "known", "anchor": "py4hw/transpilation/python2verilog_transpilation.py:921",
-     "class_expr": "'bool-value' in r.get('reasons', []) and r.get('kind') in ('mismatch','x-after-write')",
+     "class_expr": "'bool-value' in r.get('reasons', []) and r.get('kind') in ('mismatch','x-after-write','x-state','x-consequence')",
      "witness": {"src": "x = self.a.get() or self.b.get(); self.r.prepare(x)", "history": [{"a": 5, "b": 0}], "signal": "r", "sim": 5, "verilog": 1},
      "what": "`a or b` / `a and b` used as a VALUE is emitted as `a||b` / `a&&b` (0/1) while Python returns one of the operands"},
     {"id": "C02-cmp-rhs-precedence", "property": "C02", "status": "known", "anchor": "py4hw/transpilation/python2verilog_transpilation.py:537",
-     "class_expr": "'cmp-rhs-prec' in r.get('reasons', []) and r.get('kind') in ('mismatch','x-after-write')",
+     "class_expr": "'cmp-rhs-prec' in r.get('reasons', []) and r.get('kind') in ('mismatch','x-after-write','x-state','x-consequence')",
      "witness": {"src": "if self.a.get() == self.b.get() & 1: self.r.prepare(1)\nelse: self.r.prepare(0)", "history": [{"a": 3, "b": 3}], "signal": "r", "sim": 0, "verilog": 1},
      "what": "the right operand of a comparison is kept as a bare list and emitted without parentheses: `a == (b & 1)` becomes `a==b&1`, "
              "which Verilog reads as `(a==b)&1` (also | ^ and/or and nested comparisons)"},
     {"id": "C02-narrow-context", "property": "C02", "status": "known", "anchor": "py4hw/transpilation/python2verilog_transpilation.py:497",
      "class_expr": "('narrow-compare' in r.get('reasons', []) or 'narrow-test' in r.get('reasons', []) or 'narrow-shift' in r.get('reasons', []) "
-                   "or 'narrow-subject' in r.get('reasons', []) or 'narrow-assign' in r.get('reasons', [])) and r.get('kind') in ('mismatch','x-after-write')",
+                   "or 'narrow-subject' in r.get('reasons', []) or 'narrow-assign' in r.get('reasons', [])) and r.get('kind') in ('mismatch','x-after-write','x-state','x-consequence')",
      "witness": {"src": "if (self.a.get() + self.b.get()) > self.b.get(): self.r.prepare(1)\nelse: self.r.prepare(0)", "widths": {"a": 8, "b": 8}, "history": [{"a": 200, "b": 100}], "signal": "r", "sim": 1, "verilog": 0},
      "what": "an expression made only of narrow ports in a self-determined position (comparison operands, if-test, shift amount, case subject) is "
              "evaluated at the ports' width in Verilog: 8-bit a=200,b=100: Python (a+b)>b is True, Verilog computes 44>100"},
     {"id": "C02-read-after-put", "property": "C02", "status": "known", "anchor": "py4hw/transpilation/python2verilog_transpilation.py:481",
      "class_expr": "('read-after-put' in r.get('reasons', []) or 'put-in-clock' in r.get('reasons', []) or 'prepare-in-propagate' in r.get('reasons', [])) "
-                   "and r.get('kind') in ('mismatch','x-after-write','v-error')",
+                   "and r.get('kind') in ('mismatch','x-after-write','x-state','x-consequence','v-error')",
      "witness": {"src": "self.r.put(self.a.get()); self.r.put(self.r.get() + self.b.get())", "history": [{"a": 1, "b": 2}], "signal": "r", "sim": 3},
      "what": "`put` becomes a non-blocking `<=` inside `always @(*)`: a body that reads back a wire it has just put sees the old value in Verilog "
              "(r.put(a); r.put(r.get()+b) never settles), and `put` inside clock() takes effect one edge late"},
     {"id": "C02-attr-ne-port", "property": "C02", "status": "known", "anchor": "py4hw/transpilation/python2verilog_transpilation.py:697",
-     "class_expr": "'attr-ne-port' in r.get('reasons', []) and r.get('kind') in ('mismatch','x-after-write','x-at-powerup','v-error')",
+     "class_expr": "'attr-ne-port' in r.get('reasons', []) and r.get('kind') in ('mismatch','x-after-write','x-state','x-consequence','x-at-powerup','v-error')",
      "witness": {"class": "SelectType (test/unit/Test_RtlGeneration.py): self.imm_type = self.addOut('imm_typ', ...)", "signal": "imm_typ"},
      "what": "ports are referenced in the body by ATTRIBUTE name but declared in the header by PORT name: SelectType drives the undeclared "
              "identifier `imm_type` and its port `imm_typ` is never assigned"},
     {"id": "C02-name-clash", "property": "C02", "status": "known", "anchor": "py4hw/transpilation/python2verilog_transpilation.py:568",
-     "class_expr": "'name-clash' in r.get('reasons', []) and r.get('kind') in ('mismatch','x-after-write','unparseable','v-error')",
+     "class_expr": "'name-clash' in r.get('reasons', []) and r.get('kind') in ('mismatch','x-after-write','x-state','x-consequence','unparseable','v-error')",
      "witness": {"src": "s0 = self.a.get() + 1; self.r.prepare(s0 + self.s0)", "history": [{"a": 1}], "signal": "s0"},
      "what": "a local variable and `self.<same name>` (state attribute, port or constructor constant) become the SAME Verilog identifier"},
     {"id": "C02-float-const-accepted", "property": "C02", "status": "known", "anchor": "py4hw/transpilation/python2verilog_transpilation.py:605",
@@ -87,7 +87,7 @@ PROPOSED_FINDINGS = [
              "while the Python method raises TypeError in Wire.prepare (float & int); only constructor constants are checked for int-ness"},
     {"id": "C02-new-attr-uninit", "property": "C02", "status": "known", "anchor": "py4hw/transpilation/python2verilog_transpilation.py:596",
      "class_expr": "('new-attr' in r.get('reasons', []) or 'state-in-comb' in r.get('reasons', []) or 'port-as-value' in r.get('reasons', []) "
-                   "or 'neg-const' in r.get('reasons', [])) and r.get('kind') in ('mismatch','x-after-write','x-state','unparseable','v-error')",
+                   "or 'neg-const' in r.get('reasons', [])) and r.get('kind') in ('mismatch','x-after-write','x-state','x-consequence','unparseable','v-error')",
      "witness": {"src": "propagate(): self.cnt = self.cnt + 1"},
      "what": "state attributes used by propagate() (or first assigned inside the method) are declared `integer` without initial value; "
              "negative constructor constants / port attributes used as values are outside the proved fragment"},
@@ -101,13 +101,15 @@ PROPOSED_FINDINGS = [
 
 
 def fail(res, what, replay):
-    """res.fail, with the proposed findings consulted in addition to known_findings.json"""
-    listed = {k.get('id') for k in load_known()}
+    """res.fail, with the proposed findings consulted in addition to known_findings.json (an entry proposed here wins over a
+    listed entry of the same id whose class predicate is older)"""
+    listed = {k.get('id'): k for k in load_known()}
     for k in PROPOSED_FINDINGS:
-        if k['id'] not in listed and common._matches(k, what, replay):
+        lk = listed.get(k['id'])
+        if (lk is None or lk.get('class_expr') != k['class_expr']) and common._matches(k, what, replay):
             res.known_hits.append((k, what))
             if not any('pending merge' in n for n in res.notes):
-                res.notes.append('C02 findings pending merge into known_findings.json; class predicates applied from harness/c02.py')
+                res.notes.append('C02 findings pending merge/update in known_findings.json; class predicates applied from harness/c02.py')
             return True
     n = len(res.failures)
     res.fail(what, replay)
